@@ -442,6 +442,12 @@ func genC05MaskURL(r *rng, n int, w *bufio.Writer) {
 			if sides != nil && k > 0 {
 				u = "http://" + pick(r, poolDomains) + "/" + sides[k-1] + pick(r, []string{"", "/", "?x=1"})
 			}
+			if sides == nil && k == 2 && r.chance(1, 6) {
+				// longer than the 4 KiB cap, the part the pattern needs lying beyond (or straddling) the cap: the URL
+				// the pattern sees and the lower-cased URL the shortcut test sees must be the SAME capped string
+				pad := 4096 - len("http://x.example/") - r.n(12)
+				u = "http://x.example/" + strings.Repeat("p", pad) + strings.TrimPrefix(u, "http://")
+			}
 			if r.chance(1, 4) {
 				u = mutateCase(r, u)
 			}
